@@ -88,3 +88,8 @@ Fixpoint hex_rev (fuel : nat) (z : Z) : list N :=
   | S f => if z <? 16 then [hex_digit z] else hex_digit (z mod 16) :: hex_rev f (z / 16)
   end.
 Definition print_pointer (z : Z) : list N := 48%N :: 120%N :: rev (hex_rev 16 z).
+
+(* ---- util::FileStream's reservation (util/file_stream.hh) ----
+   Ensure(amount): if (current_ + amount > end_) flush();  return current_;   -- flush() puts current_ back to the start.
+   Positions are offsets from the start of the buffer; `capacity` = end_ - start. *)
+Definition fs_ensure (capacity amount current : Z) : Z := if capacity <? current + amount then 0 else current.
